@@ -83,6 +83,13 @@ def main():
                     confirmed = False
                     meta["problem"] = "demo still passes with the patch"
         meta["confirmed"] = confirmed
+        prev_path = os.path.join(VERIF, "seeded", name, "meta.json")
+        if skip_confirm and os.path.exists(prev_path):
+            # re-run of the checks only: keep the confirmation record of the first evaluation
+            prev = json.load(open(prev_path))
+            meta["ran"] = prev.get("ran", []) + [{"step": "re-run of the checks after they were strengthened (confirmation steps not repeated)"}]
+            meta["confirmed"] = confirmed = prev.get("confirmed", False)
+            meta["first_detection"] = prev.get("first_detection", prev.get("detection"))
         # detection
         env = dict(os.environ)
         env["VERIF_REPO"] = wt
